@@ -197,7 +197,7 @@ class Run:
         return out
 
 
-MODEL_FREE_ADAPTERS = {"cooler._reduce:CoolerCoarsener._aggregate"}
+MODEL_FREE_ADAPTERS = {"cooler._reduce:CoolerCoarsener._aggregate", "cooler.api:annotate"}
 
 
 def replay_refuted(run, name, info, args_by_label):
